@@ -19,7 +19,7 @@ rundemo() { # $1 = repo path
   rm -rf /var/tmp/demo-$id; mkdir -p /var/tmp/demo-$id; cp $src/*.go /var/tmp/demo-$id/ 2>/dev/null; cp $src/go.mod /var/tmp/demo-$id/ 2>/dev/null
   cp -r $src/testdata /var/tmp/demo-$id/ 2>/dev/null
   cd /var/tmp/demo-$id
-  go mod edit -replace github.com/goplus/xgo=$1 2>/dev/null || { printf 'module seeddemo\n\ngo 1.18\n\nrequire github.com/goplus/xgo v0.0.0\n' > go.mod; go mod edit -replace github.com/goplus/xgo=$1; }
+  go mod edit -replace github.com/goplus/xgo=$1 2>/dev/null || { printf 'module seeddemo\n\ngo 1.21\n\nrequire github.com/goplus/xgo v0.0.0\n' > go.mod; go mod edit -replace github.com/goplus/xgo=$1; }
   cp $1/go.sum go.sum
   XGO_REPO=$1 REPO=$1 timeout 900 go test -count=1 -vet=off . 2>&1
 }
